@@ -48,7 +48,10 @@ def cases(draw, tier="quick"):
             for _ in range(draw(st.integers(0, 5 if end == "a" else 10))):
                 ops.append(["write", [side, idx], end, draw(st.sampled_from(SIZES))])
         if draw(st.integers(0, 2)) == 0:
-            ops.append(["sclose", [side, idx], draw(st.sampled_from(["o", "a"]))])
+            who = draw(st.sampled_from(["o", "a", "both"]))
+            for end in (("o", "a") if who == "both" else (who,)):
+                ops.append(["sclose", [side, idx], end])
+    P["eager"] = draw(st.sampled_from([None, None, None, "write"]))
     # shuffle writes of different subchannels against each other, keeping per-end order (the driver
     # only ever offers the first enabled intent per subchannel end)
     perm = draw(st.permutations(range(len(ops))))
@@ -113,7 +116,7 @@ def prefix_violations(case, final=False):
                     if snd.closed_locally is not None and "lost" not in kinds:
                         return ("complete", "subchannel %s#%d: %s closed but the peer never saw connectionLost" % (
                             name, k, d[0]), "close-not-delivered")
-                    if snd.closed_locally is not None and rcv.closed_locally is None and got != snd.writes:
+                    if "lost" in kinds and got != snd.writes:
                         return ("complete", "subchannel %s#%d %s: data written before close was not all delivered "
                                 "before connectionLost (%d of %d)" % (name, k, d, len(got), len(snd.writes)),
                                 "data-lost-before-close")
